@@ -141,7 +141,7 @@ for p in props:
             "technique": tech,
         })
 
-hooks_commits = os.popen("git -C /repo log --format=%%H --grep='^verif hooks' 2>/dev/null").read().split()
+hooks_commits = os.popen("git -C /repo log --format=%H --grep='^verif hooks' 2>/dev/null").read().split()
 m = {
     "version": 1,
     "setup_cmd": "cd /verif/harness && CARGO_NET_OFFLINE=true cargo build --offline " + " ".join("--bin " + b for b in sorted({b for p in CLAIMED for b in BINS.get(p, [])})),
